@@ -512,6 +512,7 @@ func C19(c *core.Ctx) {
 		c.Decide(len(eff) > 0 && g.OK && g.PassEdges > 0, "R19.2", "sweep-removes-only-unmarked", p.Pos(ru.Pos()), "only unmarked prefixes are withdrawn", "RemoveUnmarked can withdraw a prefix that was marked in this rebuild")
 	}
 
+	c19FaceSearchCoversAdditions(c)
 	// ---- R19.14 the faces of the desired entries are looked up when they are asked for:
 	// every return of Rib.GetFibEntries lies behind the lookups of the next hops in the
 	// neighbour table made in this call. A neighbour can move to another face without any
@@ -1198,4 +1199,188 @@ func containsStr(xs []string, x string) bool {
 		}
 	}
 	return false
+}
+
+// c19FaceSearchCoversAdditions — R19.15. UpdateH merges the desired next hops into the list
+// of installed ones: "is this face already there" has to be asked of the list as it stands
+// now, additions of this round included (a prefix announced by two routers behind the same
+// face yields two desired entries for one face). A search over a slice header taken before
+// the merge loop does not see the entries appended since: the face is listed twice, at two
+// costs. Decided: the slice whose elements' FaceId is compared is the loop-carried list the
+// round appends to, not a value fixed before the loop.
+func c19FaceSearchCoversAdditions(c *core.Ctx) {
+	p := c.P
+	uh := c.Fn("R19.15", "dv/table", "Fib", "UpdateH")
+	if uh == nil {
+		return
+	}
+	isEntrySlice := func(v ssa.Value) bool {
+		return strings.HasSuffix(v.Type().String(), "[]"+core.ModPath+"/dv/table.FibEntry")
+	}
+	var carried func(v ssa.Value, d int, seen map[ssa.Value]bool) bool
+	carried = func(v ssa.Value, d int, seen map[ssa.Value]bool) bool {
+		v = core.Strip(v)
+		if v == nil || seen[v] || d > 6 {
+			return false
+		}
+		seen[v] = true
+		switch x := v.(type) {
+		case *ssa.Phi:
+			for _, e := range x.Edges {
+				if carried(e, d+1, seen) {
+					return true
+				}
+			}
+		case *ssa.Call:
+			if b, ok := x.Call.Value.(*ssa.Builtin); ok && b.Name() == "append" {
+				return true
+			}
+			if x.Call.StaticCallee() != nil && isEntrySlice(x) {
+				return true // a helper handing back the updated list
+			}
+		}
+		return false
+	}
+	current := func(v ssa.Value) bool {
+		_, isPhi := core.Strip(v).(*ssa.Phi)
+		return isPhi && carried(v, 0, map[ssa.Value]bool{})
+	}
+	// the slice a FaceId operand is an element of
+	sliceOf := func(v ssa.Value) ssa.Value {
+		ld, ok := core.Strip(v).(*ssa.UnOp)
+		if !ok || ld.Op != token.MUL {
+			return nil
+		}
+		fa, ok := ld.X.(*ssa.FieldAddr)
+		if !ok {
+			return nil
+		}
+		if _, f := core.FieldAddrName(fa); f != "FaceId" {
+			return nil
+		}
+		if ia, ok := fa.X.(*ssa.IndexAddr); ok && isEntrySlice(ia.X) {
+			return ia.X
+		}
+		return nil
+	}
+	n, bad := 0, ""
+	fns := []*ssa.Function{uh}
+	inSet := map[*ssa.Function]bool{uh: true}
+	for i := 0; i < len(fns) && i < 16; i++ {
+		core.Instrs(fns[i], func(in ssa.Instruction) {
+			if ci, ok := in.(ssa.CallInstruction); ok {
+				if g := ci.Common().StaticCallee(); g != nil && !inSet[g] && g.Pkg != nil && g.Pkg.Pkg.Path() == core.ModPath+"/dv/table" && len(g.Blocks) > 0 {
+					inSet[g] = true
+					fns = append(fns, g)
+				}
+			}
+		})
+	}
+	var okSlice func(s ssa.Value, d int) bool
+	okSlice = func(s ssa.Value, d int) bool {
+		if current(s) {
+			return true
+		}
+		pr, ok := core.Strip(s).(*ssa.Parameter)
+		if !ok || pr.Parent() == uh || d > 2 {
+			return false
+		}
+		g := pr.Parent()
+		k := -1
+		for i, q := range g.Params {
+			if q == pr {
+				k = i
+			}
+		}
+		sites, good := 0, true
+		for _, f := range fns {
+			core.Instrs(f, func(in ssa.Instruction) {
+				ci, ok := in.(ssa.CallInstruction)
+				if !ok || ci.Common().StaticCallee() != g || k < 0 || k >= len(ci.Common().Args) {
+					return
+				}
+				sites++
+				a := ci.Common().Args[k]
+				if q, isP := core.Strip(a).(*ssa.Parameter); isP && q.Parent() == uh {
+					good = false
+					return
+				}
+				// the list handed to a helper that does the whole merge is the installed list itself
+				if !okSlice(a, d+1) && f != uh {
+					good = false
+				} else if f == uh && !okSlice(a, d+1) {
+					// accepted only when the helper carries the loop itself (its own phi is checked there)
+					hasLoopAppend := false
+					core.Instrs(g, func(x ssa.Instruction) {
+						if ph, ok := x.(*ssa.Phi); ok && isEntrySlice(ph) && carried(ph, 0, map[ssa.Value]bool{}) {
+							hasLoopAppend = true
+						}
+					})
+					if !hasLoopAppend {
+						good = false
+					}
+				}
+			})
+		}
+		return sites > 0 && good
+	}
+	check := func(s ssa.Value, at string) {
+		if s == nil {
+			return
+		}
+		if pr, ok := core.Strip(s).(*ssa.Parameter); ok && pr.Parent() == uh {
+			return // the desired entries themselves
+		}
+		n++
+		if !okSlice(s, 0) {
+			bad = at
+		}
+	}
+	for _, fnX := range fns {
+		core.Instrs(fnX, func(in ssa.Instruction) {
+			if bo, ok := in.(*ssa.BinOp); ok && bo.Op == token.EQL {
+				check(sliceOf(bo.X), c.Pos(in))
+				check(sliceOf(bo.Y), c.Pos(in))
+			}
+			// a search handed to a helper with a predicate: slices.IndexFunc(list, func(e) bool { e.FaceId == … })
+			ci, ok := in.(ssa.CallInstruction)
+			if !ok {
+				return
+			}
+			cm := ci.Common()
+			for _, a := range cm.Args {
+				mc, ok := core.Strip(a).(*ssa.MakeClosure)
+				if !ok {
+					continue
+				}
+				g, _ := mc.Fn.(*ssa.Function)
+				if g == nil {
+					continue
+				}
+				cmpFace := false
+				core.Instrs(g, func(x ssa.Instruction) {
+					if fa, ok := x.(*ssa.FieldAddr); ok {
+						if _, f := core.FieldAddrName(fa); f == "FaceId" {
+							cmpFace = true
+						}
+					}
+					if fl, ok := x.(*ssa.Field); ok {
+						if st, ok := fl.X.Type().Underlying().(*types.Struct); ok && st.Field(fl.Field).Name() == "FaceId" {
+							cmpFace = true
+						}
+					}
+				})
+				if !cmpFace {
+					continue
+				}
+				for _, b := range cm.Args {
+					if isEntrySlice(b) {
+						check(b, c.Pos(in))
+					}
+				}
+			}
+		})
+	}
+	c.Decide(bad == "", "R19.15", "face-search-covers-this-rounds-additions", p.Pos(uh.Pos()), fmt.Sprintf("%d face comparison(s), each over the list the merge loop appends to", n), "UpdateH looks for an installed entry of the same face in a list fixed before the merge loop (search at "+bad+"): an entry appended earlier in the same round is not found, so a prefix announced by two routers behind one face is installed twice for that face — the later, costlier entry overwrites the registration and the face is not held at its lowest cost")
+	c.Floor("R19.15", "face comparisons in UpdateH's merge", n, 1)
 }
